@@ -28,6 +28,7 @@ type flowCase struct {
 	ExtraArg []string
 	Tweak    func(*pgen.Spec)
 	Timeout  time.Duration
+	Reattach bool // run mrp a second time on the completed pipestance and re-check outs/
 	Template int // 0 = random program, k>0 = pgen.Template(k-1)
 }
 
@@ -42,6 +43,7 @@ type flowResult struct {
 	dir     string
 	races   []vrun.RaceReport
 	sched   string
+	reattachFindings []vmon.Finding
 	vdr     vmon.VdrStats
 }
 
@@ -103,6 +105,22 @@ func runFlowCase(c *vf.Ctx, fc *flowCase) *flowResult {
 		if b, err := os.ReadFile(filepath.Join(dir, "canary", "file")); err != nil || string(b) != "canary" {
 			res.report.Findings = append(res.report.Findings, vmon.Finding{Prop: "C14", Sig: "canary-touched",
 				What: "a file beside the pipestance directory was removed or changed"})
+		}
+	}
+	if fc.Reattach && res.run.Exit == 0 && res.report != nil {
+		// run mrp again on the completed pipestance: a second post-processing pass
+		r2 := cs.Run(vrun.RunOpts{Race: fc.Race, Args: args, Seed: fc.Seed, Timeout: 120 * time.Second})
+		rep2 := &vmon.Report{DepKinds: map[string]int{}}
+		if r2.TimedOut || r2.Exit != 0 {
+			rep2.Findings = append(rep2.Findings, vmon.Finding{Prop: "C13", Sig: "reattach-to-completed-failed",
+				What: fmt.Sprintf("mrp run again on the completed pipestance exited %d: %s", r2.Exit, tail(r2.Output, 500))})
+		} else {
+			vmon.CheckOutsDir(res.obs, p, res.model, rep2)
+		}
+		for _, f := range rep2.Findings {
+			f.Sig += ":after-reattach"
+			f.What = "after running mrp again on the completed pipestance: " + f.What
+			res.report.Findings = append(res.report.Findings, f)
 		}
 	}
 	res.races = vrun.ParseRaceLogs(res.run.RaceLogs)
@@ -510,10 +528,15 @@ func init() {
 				cfg.MaxStructs = 4
 				seed := c.Seed*1000003 + 1300000 + int64(i)
 				big := i%5 == 4
+				outside := i%2 == 1
 				cases = append(cases, &flowCase{Index: i, Seed: seed, Cfg: cfg, Vdr: []string{"disable", "rolling", "strict"}[i%3],
+					Reattach: i%4 == 1 || i%4 == 2,
 					Tweak: func(s *pgen.Spec) {
 						s.PMissingFile = 12
 						s.PNull = 8
+						if outside {
+							s.OutsideDir = filepath.Join(filepath.Dir(s.PsRoot), "outside")
+						}
 						if big {
 							s.MaxLen = 11
 						}
